@@ -102,12 +102,16 @@ def _blocks(node):
             yield node, f, v      # ExceptHandler nodes have a `body` of their own and are reached by the walk
 
 
+EXACT_NEGATION = {ast.Eq: ast.NotEq, ast.NotEq: ast.Eq, ast.Is: ast.IsNot, ast.IsNot: ast.Is, ast.In: ast.NotIn, ast.NotIn: ast.In}
+
+
 def canon_blocks(tree):
     """block normal forms, applied after CanonCompare:
     * `if c: ...; return/raise/continue/break  else: REST` (and the same spelled as an elif chain) is read as `if c: ...` followed by REST;
     * `t = E; return t` with t used nowhere else in the function is read as `return E`;
     * an annotated assignment of a local name is read as a plain assignment, and a `pass` that is not the only statement of its block is dropped;
     * `x = A if c else B` is read as `if c: x = A  else: x = B`;
+    * a guard clause `if not c: continue` (bare `return` at function level) followed by REST is read as `if c: REST`;
     * `u = CALL; a = u[0]; b = u[1]` with u used nowhere else is read as `a, b = CALL`;
     * `t = g(...); x = f(..., t, ...)` with t used nowhere else is read as `x = f(..., g(...), ...)` (a temporary introduced for a nested call)."""
     def flatten(stmts):
@@ -138,6 +142,25 @@ def canon_blocks(tree):
         for owner, f, v in list(_blocks(node)):
             if not isinstance(owner, ast.ClassDef):
                 setattr(owner, f, plain(v))
+    def unguard(stmts, leave):
+        """`if not c: continue` followed by REST up to the end of the loop body is read as `if c: REST` (same for a bare `return` at function level)"""
+        for i, s in enumerate(stmts[:-1]):
+            if isinstance(s, ast.If) and not s.orelse and len(s.body) == 1 and isinstance(s.body[0], leave) and getattr(s.body[0], "value", None) is None:
+                if isinstance(s.test, ast.UnaryOp) and isinstance(s.test.op, ast.Not):
+                    pos = s.test.operand
+                elif isinstance(s.test, ast.Compare) and len(s.test.ops) == 1 and type(s.test.ops[0]) in EXACT_NEGATION:
+                    pos = ast.copy_location(ast.Compare(left=s.test.left, ops=[EXACT_NEGATION[type(s.test.ops[0])]()], comparators=s.test.comparators), s.test)
+                else:
+                    pos = ast.copy_location(ast.UnaryOp(op=ast.Not(), operand=s.test), s.test)
+                rest = unguard(stmts[i + 1:], leave)
+                return stmts[:i] + [ast.copy_location(ast.If(test=pos, body=rest, orelse=[]), s)]
+        return stmts
+
+    for node in list(ast.walk(tree)):
+        if isinstance(node, (ast.For, ast.While)):
+            node.body = unguard(node.body, ast.Continue)
+        elif isinstance(node, (ast.FunctionDef, ast.AsyncFunctionDef)) and not any(isinstance(x, (ast.Yield, ast.YieldFrom)) for x in ast.walk(node)):
+            node.body = unguard(node.body, ast.Return)
     for node in list(ast.walk(tree)):
         for owner, f, v in list(_blocks(node)):
             setattr(owner, f, flatten(v))
